@@ -112,7 +112,14 @@ class Node(ElementBase):
             link_up = next(iter(links_up))[-1]
             v = link_up.states["v"][-1]
             q = link_up.get_flow(engine)[-1]
-            if q_o is not None:
+            links_out = net.out_links(self)
+            if len(links_out) > 1:
+                # split the flow among the exiting links according to their turnrates
+                betas = engine.vcat(*(dlink.turnrate for _, _, dlink in links_out))
+                q = engine.nodes.get_upstream_flow(
+                    engine.vcat(q), link.turnrate, betas, q_o
+                )
+            elif q_o is not None:
                 q += q_o  # type: ignore[assignment,operator]
         else:
             v_last = []
